@@ -43,19 +43,26 @@ def _abstract_step(ex, st, args, kwargs, node):
 
 
 DRIVER_NATIVES = {"hexital.indicators.ema.EMA._calculate_reading": _abstract_step}
+# a reading that already holds a value is never recomputed (C15: after trimming, the history it was computed from may be gone;
+# _find_calc_index resumes at candle 0 when only candle 0 carries the reading)
+KEPT = ("forall(0, Len(self.candles), lambda j: implies(old(Rd(self.candles, j, self.name)) is not None,"
+        " same(Rd(self.candles, j, self.name), old(Rd(self.candles, j, self.name)))))")
 FROZEN = "forall(0, " + R + ", lambda j: same(Rd(self.candles, j, self.name), old(Rd(self.candles, j, self.name))) and Has(self.candles, j, self.name))"
 CONTRACTS += [
     Contract(
         I + "calculate",
         types={"self": "indicator"},
         ghost={"k": "int"},
-        requires={"prefix-complete": PC},
+        requires={"prefix-complete": PC,
+                  # a top-level indicator's own key lives in candle.indicators only (namespace premise of C13)
+                  "own-key-in-indicators-only": "forall(0, Len(self.candles), lambda j: not HasIn(self.candles, j, self.name, 'S'))"},
         ensures={
             "every-candle-has-the-reading": "forall(0, Len(self.candles), lambda j: Has(self.candles, j, self.name))",
             "readings-below-the-resume-point-untouched": FROZEN,
+            "existing-readings-are-never-recomputed": KEPT,
         },
         result_type="None",
-        props=["C01", "C02", "C07", "C14"],
+        props=["C01", "C02", "C07", "C14", "C15"],
         use_at_calls=False,
     ),
 ]
@@ -63,6 +70,8 @@ LOOPS[(I + "calculate", 0)] = LoopSpec(
     invariant={
         "written-up-to-here": "forall(0, " + R + " + it, lambda j: Has(self.candles, j, self.name))",
         "frozen-below-resume-point": FROZEN,
+        "existing-readings-kept": KEPT,
+        "own-key-stays-out-of-sub-indicators": "forall(0, Len(self.candles), lambda j: not HasIn(self.candles, j, self.name, 'S'))",
     },
     types={"reading": "float|None"},
     modifies_series=[("self.candles", "self.name")],
